@@ -643,6 +643,41 @@ theorem associate_jitter (diff off : ℝ) (rs es : List ℝ) (rp ep : List (SE3 
   have e4 : pick ep (List.range es.length) = ep := by rw [← hep]; exact pick_range ep
   rw [e1, e2, e3, e4]
 
+/-- **Brute-force nearest-stamp association, for every spacing of the stamps** (hardening kind 18): every pair `(i, j)`
+returned by `matching_time_indices` has `j` a position of `l`, the stamp `l_j + off` is closer to `s_i` than `diff`, and
+NO other stamp of `l` is closer — whether the stamps are spaced far above, near or below `diff`. -/
+theorem matchIdx_nearest (diff off : ℝ) (s l : List ℝ) (i j : Nat) (h : (i, j) ∈ matchIdx diff off s l) :
+    ∃ (hi : i < s.length) (hj : j < l.length), |s[i] - (l[j] + off)| < diff ∧
+      ∀ (k : Nat) (hk : k < l.length), |s[i] - (l[j] + off)| ≤ |s[i] - (l[k] + off)| := by
+  unfold matchIdx at h
+  obtain ⟨⟨si, i'⟩, hmem, hval⟩ := List.mem_filterMap.mp h
+  obtain ⟨hi, hsi⟩ := List.mem_zipIdx' hmem
+  simp only at hval
+  cases ha : argmin? (absDiffRow si off l) with
+  | none => simp [ha] at hval
+  | some vj =>
+    obtain ⟨v, j'⟩ := vj
+    simp only [ha] at hval
+    by_cases hlt : v < diff
+    · simp only [lt_real, hlt, decide_true, if_true, Option.some.injEq, Prod.mk.injEq] at hval
+      obtain ⟨rfl, rfl⟩ := hval
+      obtain ⟨hjl, hjv, hmin⟩ := argmin?_spec _ v j' ha
+      have hlen : (absDiffRow si off l).length = l.length := by simp [absDiffRow]
+      rw [hlen] at hjl
+      have hrow : ∀ (k : Nat) (hk : k < l.length), (absDiffRow si off l)[k]? = some |si - (l[k] + off)| := by
+        intro k hk
+        simp [absDiffRow, hk, sabs_real]
+      have hv : v = |si - (l[j'] + off)| := by
+        have := hrow j' hjl
+        rw [hjv] at this
+        exact Option.some.inj this
+      refine ⟨hi, hjl, ?_, ?_⟩
+      · rw [← hsi, ← hv]; exact hlt
+      · intro k hk
+        rw [← hsi, ← hv]
+        exact hmin _ (List.mem_of_getElem? (hrow k hk))
+    · simp [lt_real, hlt] at hval
+
 /-- association only looks at the stamps: mapping the poses commutes with it -/
 theorem associate_map (diff off : ℝ) (rs es : List ℝ) (rp ep : List (SE3 ℝ)) (f g : SE3 ℝ → SE3 ℝ) :
     associate diff off rs (rp.map f) es (ep.map g)
